@@ -34,7 +34,26 @@ def sources(fi, e, ep, local_src, nodevar, nm):
     return out
 
 
+# R1-R6 read the shape of _process_element (provenance of every store, raw identity, text / tail sibling agreement, the child loop, the attribute
+# split); R9 folds it over every class of element the whitespace policy and the attribute / namespace / comment handling distinguish
+FOLDS = {"R9": {"count": "import verdicts", "min": 318, "about": ("_process_element",)}}
+SUBORDINATE = {"R1": "R9", "R2": "R9", "R3": "R9", "R4": "R9", "R5": "R9", "R6": "R9"}
+
+
 def run(ctx, rep):
+    rep.guarded("R1", _structural, ctx, rep)
+    only = getattr(rep, "only", None)
+    from .c08_worlds import rule_r9, rule_r10
+    if only in (None, "R9"):
+        rule_r9(ctx, rep)
+    if only in (None, "R10"):
+        rule_r10(ctx, rep)
+    for r in ("R9", "R10"):
+        if r not in rep.rules_run:
+            rep.rules_run.append(r)
+
+
+def _structural(ctx, rep):
     rep.explanation = (
         "_process_element: for every store into a Node field, the set of infoset items of the same element the stored expression "
         "derives from must be the item that field mirrors (tag, prefix, nsmap, text, tail, attrib); the raw path assigns text and "
@@ -42,7 +61,8 @@ def run(ctx, rep):
         "loop over the element attaches every non-comment child in order with the same flags; attributes are split on the Clark "
         "brace; the reserved xml namespace is translated to the xml: prefix")
     rep.rules_run = ["R1", "R2", "R3", "R4", "R5", "R6", "R7", "R8"]
-    rep.assumptions += ["NOT decided: what lxml parses; what strip/split/the whitespace regex do to every string; import-export-import stability"]
+    rep.assumptions += ["NOT decided: what lxml parses; what strip/split/the whitespace regex do to every string (R9 decides the policy per class of text); "
+                        "import-export-import stability beyond the seven folded documents of R10"]
     prog = ctx.prog
     w = ctx.world
     nm = w.nm
